@@ -19,6 +19,7 @@ import Hdl21Model.Lemmas.ExportWF
 import Hdl21Model.Lemmas.ConnTypes
 import Hdl21Model.Lemmas.Orphanage
 import Hdl21Model.Lemmas.ModulePipe
+import Hdl21Model.ExtDecl
 namespace Hdl21.Props.C06
 open Hdl21 Hdl21.ExportOrder
 
@@ -531,5 +532,100 @@ example : (pipeline 40 (fun _ => some [("p", 2)])
       (fun p => p.instances.map fun i => i.conns.map fun pc => (pc.1, readTarget p.signals pc.2)) =
     some [[("p", [("s", 1), ("t", 0)])]] := by decide +kernel
 end Pipeline
+
+
+/-! ## external-module declarations -/
+section ExtDecls
+open Hdl21.ExtDecl
+
+/-- the package's declarations: one per qualified name -/
+def KeysUnique (pkg : List Decl) : Prop := (pkg.map Decl.key).Nodup
+
+theorem find_none_not_mem (pkg : List Decl) (d : Decl) (h : pkg.find? (fun o => o.key = d.key) = none) : d.key ∉ pkg.map Decl.key := by
+  intro hm
+  obtain ⟨o, ho, hk⟩ := List.mem_map.mp hm
+  have := List.find?_eq_none.mp h o ho
+  simp [hk] at this
+
+/-- one declaration step: names stay unique, what was declared stays, and the object just declared is in the package **as it was
+    given** — same widths, same ports, same spice type — so an instance checked against its own `ExternalModule` is checked
+    against what the package declares.  (A step that compares names and port lists only — seed C06-r8-2 — files a declaration of
+    other widths under the first one's name.) -/
+theorem declare_spec (pkg pkg' : List Decl) (d : Decl) (hu : KeysUnique pkg) (h : declare pkg d = some pkg') :
+    KeysUnique pkg' ∧ d ∈ pkg' ∧ (∀ o ∈ pkg, o ∈ pkg') ∧ (∀ o ∈ pkg', o ∈ pkg ∨ o = d) := by
+  unfold declare at h
+  cases hf : pkg.find? (fun o => o.key = d.key) with
+  | some o =>
+    simp only [hf] at h
+    by_cases ho : o = d
+    · simp [ho] at h; subst h
+      have hm := List.mem_of_find?_eq_some hf
+      exact ⟨hu, ho ▸ hm, fun _ h => h, fun _ h => Or.inl h⟩
+    · simp [ho] at h
+  | none =>
+    simp only [hf] at h
+    injection h with h; subst h
+    refine ⟨?_, by simp, fun o ho => by simp [ho], fun o ho => ?_⟩
+    · unfold KeysUnique
+      rw [List.map_append, List.nodup_append]
+      refine ⟨hu, by simp, ?_⟩
+      intro a ha b hb
+      simp at hb; subst hb
+      intro hab; subst hab
+      exact find_none_not_mem pkg d hf ha
+    · rcases List.mem_append.mp ho with h | h
+      · exact Or.inl h
+      · simp at h; exact Or.inr h
+
+/-- **Every package's external-module declarations are consistent**: whenever the exporter gets through all the `ExternalModule`
+    objects of a design, the package declares each qualified name once, and every object met is declared exactly as given; two
+    objects of one name that differ in anything the package says — a port's width included — make the export fail. -/
+theorem declarations_consistent : ∀ (ds : List Decl) (pkg pkg' : List Decl), KeysUnique pkg → declareAll pkg ds = some pkg' →
+    KeysUnique pkg' ∧ (∀ d ∈ ds, d ∈ pkg') ∧ (∀ o ∈ pkg, o ∈ pkg')
+  | [], pkg, pkg', hu, h => by
+    unfold declareAll at h; injection h with h; subst h
+    exact ⟨hu, (fun _ hd => by cases hd), fun _ h => h⟩
+  | d :: ds, pkg, pkg', hu, h => by
+    unfold declareAll at h
+    cases hd : declare pkg d with
+    | none => simp [hd] at h
+    | some p1 =>
+      simp only [hd] at h
+      obtain ⟨hu1, hin, hkeep, _⟩ := declare_spec pkg p1 d hu hd
+      obtain ⟨hu2, hall, hkeep2⟩ := declarations_consistent ds p1 pkg' hu1 h
+      refine ⟨hu2, ?_, fun o ho => hkeep2 o (hkeep o ho)⟩
+      intro x hx
+      rcases List.mem_cons.mp hx with rfl | hx
+      · exact hkeep2 _ hin
+      · exact hall x hx
+
+theorem conflicting_declarations_refused (ds : List Decl) (pkg : List Decl) (hu : KeysUnique pkg) (a b : Decl)
+    (ha : a ∈ ds) (hb : b ∈ ds) (hk : a.key = b.key) (hne : a ≠ b) : declareAll pkg ds = none := by
+  cases h : declareAll pkg ds with
+  | none => rfl
+  | some pkg' =>
+    obtain ⟨hu', hall, _⟩ := declarations_consistent ds pkg pkg' hu h
+    exfalso
+    -- two different members of a list whose keys are pairwise distinct cannot share a key
+    have key : ∀ (l : List Decl), (l.map Decl.key).Nodup → a ∈ l → b ∈ l → False := by
+      intro l
+      induction l with
+      | nil => intro _ h; cases h
+      | cons x xs ih =>
+        intro hnd hxa hxb
+        simp only [List.map_cons, List.nodup_cons] at hnd
+        rcases List.mem_cons.mp hxa with e1 | e1 <;> rcases List.mem_cons.mp hxb with e2 | e2
+        · exact hne (e1.trans e2.symm)
+        · exact hnd.1 (List.mem_map.mpr ⟨b, e2, by rw [← e1, hk]⟩)
+        · exact hnd.1 (List.mem_map.mpr ⟨a, e1, by rw [← e2, hk]⟩)
+        · exact ih hnd.2 e1 e2
+    exact key pkg' hu' (hall a ha) (hall b hb)
+
+/-- non-vacuity: the same declaration twice is written once; the same name with an eight- and a sixteen-bit port is refused -/
+example :
+    let e8 : Decl := ⟨"lib", "EW", "SUBCKT", [("d", 8), ("q", 1)], [("d", "INPUT"), ("q", "OUTPUT")]⟩
+    let e16 : Decl := ⟨"lib", "EW", "SUBCKT", [("d", 16), ("q", 1)], [("d", "INPUT"), ("q", "OUTPUT")]⟩
+    (declareAll [] [e8, e8]).map List.length = some 1 ∧ declareAll [] [e8, e16] = none ∧ declareAll [] [e16, e8] = none := by decide
+end ExtDecls
 
 end Hdl21.Props.C06
